@@ -293,6 +293,15 @@ void StatusPrinter::BuildStarted() {
 void StatusPrinter::BuildFinished() {
   printer_.SetConsoleLocked(false);
   printer_.PrintOnNewLine("");
+  // The plan this build worked on is gone; a later build reported through this
+  // object (the one that follows a regeneration of the manifest) adds the
+  // edges of its own plan.
+  total_edges_ = 0;
+  eta_predictable_edges_total_ = 0;
+  eta_predictable_cpu_time_total_millis_ = 0;
+  eta_predictable_edges_remaining_ = 0;
+  eta_predictable_cpu_time_remaining_millis_ = 0;
+  eta_unpredictable_edges_remaining_ = 0;
 }
 
 string StatusPrinter::FormatProgressStatus(const char* progress_status_format,
